@@ -130,7 +130,7 @@ ConvIntVerdict(e) ==
 (* Programs on the iterator itself (C08): nth(k) for each k of e.ks on a fresh all_functions(n), then a
    consuming tail.  all_functions yields every function once in increasing order and then terminates, whatever
    Iterator method consumes it: nth(k) returns the item k places ahead, or nothing (and exhausts the iterator)
-   when fewer than k + 1 remain; count() is the number of items left; last() is the constant one; size_hint
+   when fewer than k + 1 remain; count() (and a fold) sees the number of items left; last() and max() are the constant one, min() the next item; size_hint
    brackets the number of items left. *)
 LOCAL SQV == INSTANCE SequencesExt
 NoItem == {0 - 1}
@@ -148,7 +148,7 @@ IterProgVerdict(e) ==
   IF MODE = "C02" THEN     \* well-formedness of every table the iterator hands out, however it is driven
      (IF e.out # "ok" THEN Poison
       ELSE IF \E k \in 1..Len(e.r.items) : e.r.items[k].some /\ ~WFTab(e.r.items[k].t) THEN Bad("malformed table")
-      ELSE IF e.tail = "last" /\ e.r.tail.last.some /\ ~WFTab(e.r.tail.last.t) THEN Bad("malformed table")
+      ELSE IF e.tail \in {"last", "min", "max"} /\ e.r.tail.last.some /\ ~WFTab(e.r.tail.last.t) THEN Bad("malformed table")
       ELSE Good(slots, it))
   ELSE IF MODE # "C08" THEN Setup(slots, it)
   ELSE IF e.out # "ok" THEN Bad("outcome " \o e.out \o " not allowed")
@@ -156,8 +156,9 @@ IterProgVerdict(e) ==
            left == IF st.ok THEN CountFrom(e.n, st.cur) ELSE {}
        IN IF Len(e.r.items) # Len(e.ks) \/ \E k \in 1..Len(e.ks) : ~ItemOK(e.n, e.r.items[k], st.items[k])
           THEN Bad("nth: wrong item")
-          ELSE IF e.tail = "count" /\ ToSet(e.r.tail.count) # left THEN Bad("count of the remaining items")
-          ELSE IF e.tail = "last" /\ ~ItemOK(e.n, e.r.tail.last, IF st.ok THEN Dom(e.n) ELSE NoItem) THEN Bad("last item")
+          ELSE IF e.tail \in {"count", "fold"} /\ ToSet(e.r.tail.count) # left THEN Bad("count of the remaining items")
+          ELSE IF e.tail \in {"last", "max"} /\ ~ItemOK(e.n, e.r.tail.last, IF st.ok THEN Dom(e.n) ELSE NoItem) THEN Bad("last item")
+          ELSE IF e.tail = "min" /\ ~ItemOK(e.n, e.r.tail.last, IF st.ok THEN st.cur ELSE NoItem) THEN Bad("least remaining item")
           ELSE IF e.tail = "hint" /\ ~(LeqNum(ToSet(e.r.tail.lo), left) /\ (e.r.tail.has_hi => LeqNum(left, ToSet(e.r.tail.hi))))
           THEN Bad("size_hint does not bracket the remaining items")
           ELSE Good(slots, it)
